@@ -55,6 +55,12 @@ var solvers = []solverSpec{
 	{"z3-4.8.12", func(f string, t int) []string {
 		return append(append([]string{"z3", "-smt2", fmt.Sprintf("-t:%d", t)}, z3Seed()...), f)
 	}, func(q string) string { return q }},
+	// a second z3 5.1.0 with another random seed: quantifier instantiation order is seed sensitive (one obligation needed
+	// 0.5-2 s under seven seeds and did not finish in 40 s under the eighth), so the portfolio carries two draws
+	{"z3-5.1.0-altseed", func(f string, t int) []string {
+		alt := 7919 + 31*solverSeed
+		return []string{"z3-new", "-smt2", fmt.Sprintf("-t:%d", t), fmt.Sprintf("smt.random_seed=%d", alt), fmt.Sprintf("sat.random_seed=%d", alt), f}
+	}, func(q string) string { return q }},
 }
 
 var tmpDir string
@@ -201,8 +207,12 @@ func solve(query, id string, timeoutMs int, thorough bool, wantModel bool) *Solv
 		}
 		if thorough && best.status == "unsat" {
 			n := 0
-			for _, s := range res.Answers {
-				if s == "unsat" {
+			fam := map[string]bool{}
+			for name, s := range res.Answers {
+				// the two z3 5.1.0 draws are one solver for the agreement rule
+				f := strings.TrimSuffix(name, "-altseed")
+				if s == "unsat" && !fam[f] {
+					fam[f] = true
 					n++
 				}
 			}
